@@ -253,6 +253,10 @@ def _check_parse(case, value, aware, exc, desc, v):
         ok = _matches(hint, exp_a) or _matches(hint, exp_h)
         if not ok:
             v.fail("C20:hint-value", f"retry_after_s={hint!r} matches neither the attribute ({exp_a}) nor the header ({exp_h}) for {desc}")
+        elif exp_a == ("none",) and not _matches(hint, exp_h):
+            # an attribute that carries no hint (None, garbage text, a non-number) must not hide the hint
+            # the server did send in the header
+            v.fail("C20:header-hidden-by-useless-attribute", f"retry_after_s={hint!r} although the attribute carries no hint and the header gives {exp_h} for {desc}")
     elif not visible(case):
         if hint is not None:
             v.fail("C20:hint-from-nowhere", f"retry_after_s={hint!r} although no header is visible for {desc}")
@@ -374,7 +378,7 @@ def parse_case(draw):
     else:
         case["value"] = draw(nonstring_st())
     if case["shape"] == "attr_and_header":
-        case["attr_value"] = draw(st.one_of(nonstring_st(), digits_st(), garbage_st()))
+        case["attr_value"] = draw(st.one_of(nonstring_st(), digits_st(), garbage_st(), st.sampled_from(["", "   ", "soon", "None", None, b"5", "n/a"])))
     if case["shape"] == "empty_headers_and_response":
         case["empty"] = draw(st.sampled_from([{}, [], (), ""]))
     return case
